@@ -139,6 +139,36 @@ def bounded_lazy_eval(p):
     mm(lz)
     if not S.check(c.n == 2, dict(what='re-evaluated after clear_cache', none=ret_none), f'after clear_cache evaluated {c.n} times in total (expected 2)'):
       return S.result()
+  # cached calls that differ only in a keyword value whose hash collides (hash(-1) == hash(-2) in CPython)
+  def shape_without(shape, axis=0):
+    return tuple(d for i, d in enumerate(shape) if i != axis % len(shape))
+  lazy_fns.clear_cache()
+  for kw_a, kw_b in (({'axis': -1}, {'axis': -2}), ({'axis': 0}, {'axis': 1})):
+    a = mm(lazy_fns.trace(shape_without)((2, 3, 5), cache_result_=True, **kw_a))
+    b = mm(lazy_fns.trace(shape_without)((2, 3, 5), cache_result_=True, **kw_b))
+    if not S.check(a == shape_without((2, 3, 5), **kw_a) and b == shape_without((2, 3, 5), **kw_b), dict(what='cached calls differing in a keyword value', kwargs=[kw_a, kw_b]),
+                   f'cached f(shape, {kw_a}) = {a}, then cached f(shape, {kw_b}) = {b}; eager {shape_without((2, 3, 5), **kw_b)}'):
+      return S.result()
+  lazy_fns.clear_cache()
+  # a handle created by ANOTHER process (e.g. a worker that was restarted) is not held here: missing-object error
+  import subprocess, sys as _sys, base64, os as _os
+  probe = lazy_fns.LazyObject.new('probe')
+  rel = probe.id - lazy_fns._increment_id._base      # how many ids this process has handed out so far
+  code = ("import sys, base64; sys.path.insert(0, %r); from ml_metrics._src.chainables import lazy_fns; "
+          "hs = [lazy_fns.LazyObject.new({'model': 'old'}) for _ in range(%d)]; "
+          "print(base64.b64encode(lazy_fns.pickler.dumps(hs[-1])).decode())") % (_os.environ.get('PYVC_REPO', '/repo'), rel + 4)
+  out = subprocess.run([_sys.executable, '-c', code], capture_output=True, text=True, timeout=120)
+  line = [l for l in out.stdout.strip().split('\n') if l and not l.startswith('WARNING')]
+  if line:
+    # the other process handed out as many ids as this one is about to: equal per-process id bases would collide
+    mine = [lazy_fns.LazyObject.new({'model': f'new-{i}'}) for i in range(8)]
+    stale = lazy_fns.pickler.loads(base64.b64decode(line[-1]))
+    got = expect(lambda: mm(stale))
+    S.check(got == ('raise', 'LazyObjectMissingError'), dict(what='handle from another process'),
+            f'dereferencing a handle created by another process gave {got}; it is not held here, so the missing-object error is the only right answer')
+    lazy_fns.clear_object()
+  else:
+    S.check(False, dict(what='subprocess for the foreign handle failed'), out.stderr[-300:])
   # lazy_result: a handle to an object held in the bounded cache
   for value in ([1, 2], None, 0):
     h = mm(lazy_fns.trace(lambda v=value: v)(lazy_result_=True))
